@@ -97,6 +97,57 @@ def rule_eligible_only(ctx):
         ok = path == ["leader_weight"]
         ctx.ob(R, "modulus of the weighted draw", ok, "eligibility is drawn modulo self.leader_weight (the sum the cumulative walk covers)" if ok else
                "eligibility is drawn modulo %s while the cumulative walk covers only leader-eligible validators (sum = leader_weight): some draws match no leader" % show(a[1]), f.loc())
+    # the cumulative walk stops at the first leader whose cumulative weight EXCEEDS the draw (strictly): `draw < offset`
+    def is_draw(t):
+        return any(x[0] == "call" and x[1] == LS + "::leader_weighted_eligibility" for x in subterms(t))
+
+    def offset_like(body, Tb, t):
+        # a running sum: a mutable local (or captured cell) that is increased by a `.weight`
+        if t[0] == "var":
+            for d in Tb.defs.get(t[1], ()):
+                if d[0] == "s":
+                    v = Tb.rvalue(body.blocks[d[1]]["s"][d[2]]["r"])
+                    if any(x[0] == "field" and x[2] == "weight" for x in subterms(v)):
+                        return True
+        return t[0] == "upvar"
+    decided = False
+    for g in [f] + common.family(ctx, f, ("closure",)):
+        Tg = ctx.T(g)
+
+        def m_walk(a, b, g=g, Tg=Tg):
+            if is_draw(a) and not is_draw(b) and offset_like(g, Tg, b):
+                return 1
+            if is_draw(b) and not is_draw(a) and offset_like(g, Tg, a):
+                return -1
+            # inside a closure the draw is a captured value: resolve through the capture list of the creating aggregate
+            return 0
+        W = Walker(ctx, g, [Atom("cmp(draw,cumulative)", "cmp", m_walk, ["<", "=", ">"])])
+        if g is f:
+            rl = Q.ret_locals(f)
+            hits = [bi for bi, b in enumerate(f.blocks) for st in b["s"] if st["k"] == "assign" and st["p"]["l"] in rl and not st["p"].get("pr")]
+            hits += [bi for bi, b in enumerate(f.blocks) if b["t"]["k"] == "call" and not b["t"]["dest"].get("pr") and b["t"]["dest"]["l"] in rl]
+            heads = [c["bb"] for c in T.calls() if c["q"] == "std::iter::Iterator::next"]
+            cfgf = ctx.cfg(f)
+            for h in heads:
+                inl = [b for b in hits if cfgf.dominates(h, b)]
+                if not inl:
+                    continue
+                names, tab = W.table({"ret": inl}, start=h)
+                if len(set(map(frozenset, tab.values()))) > 1:
+                    decided = True
+                    ok = tab.get(("<",)) == {"ret"} and not tab.get(("=",)) and not tab.get((">",))
+                    ctx.ob(R, "weighted walk stops at the first cumulative weight above the draw", ok, "a leader is returned exactly when draw < cumulative weight (strict): every ticket 0..leader_weight-1 belongs to exactly one leader, in proportion to its weight" if ok else
+                           "the weighted walk returns a leader for (draw vs cumulative weight) in %s instead of exactly '<': leaders get one ticket too many / too few" % sorted(k[0] for k, v in tab.items() if v), f.loc())
+        else:
+            # a predicate closure (find / position / take_while ...): its truth under the three orderings
+            res = {c: common.ret_truths(ctx, W, g, {"cmp(draw,cumulative)": c}) for c in "<=>"}
+            if all(v and None not in v for v in res.values()) and len(set(map(frozenset, res.values()))) > 1:
+                decided = True
+                ok = res["<"] == {True} and res["="] == {False} and res[">"] == {False}
+                ctx.ob(R, "weighted walk stops at the first cumulative weight above the draw", ok, "the selecting predicate is draw < cumulative weight (strict)" if ok else
+                       "the selecting predicate of the weighted walk is true for (draw vs cumulative weight) %s instead of exactly '<'" % {k: sorted(v) for k, v in res.items()}, g.loc())
+    if not decided:
+        ctx.note("C11.2 weighted walk comparison: shape not recognised - not decided")
     # the cumulative walk iterates self.leaders and accumulates weights of vec[l]
     walk_ok = any(c["q"] == "[T]::iter" and field_path(T.args_of(c)[0])[1][-1:] == ["leaders"] for c in T.calls())
     ctx.ob(R, "cumulative walk over leaders", walk_ok, "the weighted walk iterates self.leaders" if walk_ok else "the weighted walk does not iterate self.leaders", f.loc())
